@@ -196,6 +196,15 @@ theorem verify_rejects (fuel : Nat) (nullable : Bool) :
   ⟨verify_none_nonnullable fuel, fun a i => verify_outOfRange fuel nullable a i,
    fun a v => verify_wrongType fuel nullable a v⟩
 
+-- OBLIGATION: PysparklingVerif.C19.scalar_classes_exact
+/-- "the wrong Python type" is decided on the exact class: a bool is accepted by BooleanType alone (not by the integral
+types, although `bool` is a subclass of `int`), an int by the four integral types alone, a float by float / double alone -/
+theorem scalar_classes_exact (a : Atom) (b : Bool) (i : Int) :
+    (acceptsScalar a (.bool b) = true ↔ a = .boolean) ∧
+    (acceptsScalar a (.int i) = true ↔ a ∈ [Atom.byte, .short, .integer, .long]) ∧
+    (acceptsScalar a .float = true ↔ a ∈ [Atom.float, .double]) := by
+  cases a <;> simp [acceptsScalar]
+
 -- OBLIGATION: PysparklingVerif.C19.verify_rejects_nested
 /-- a rejected element makes the enclosing array / positional struct rejected too (nested fields are not skipped) -/
 theorem verify_rejects_nested (fuel : Nat) (nullable cn : Bool) (e : DType) (xs : List PV) (x : PV)
